@@ -458,6 +458,13 @@ func genPlan(r *core.Rand, tier string) any {
 	}
 	if r.Chance(1, 8) {
 		p.Fault = &simfs.Fault{Class: faultClasses[r.Intn(len(faultClasses))], Nth: r.Range(1, 10), Errno: r.Pick("EIO", "ENOSPC", "EACCES", "ENOENT")}
+		if p.Fault.Class == simfs.OpStat && p.Fault.Errno == "ENOENT" {
+			// An lstat that answers "does not exist" for a component that IS there (and is a link) is a race with
+			// another process, not an error go-git can notice: every userland check for leading symlinks is a
+			// time-of-check/time-of-use pair, git's included. The statement does not ask for more, so that fault is
+			// not injected on stats (thorough tier, seed 11: remove through a planted link after such an answer).
+			p.Fault.Errno = "EIO"
+		}
 		switch p.Fault.Class {
 		case simfs.OpCreate, simfs.OpWrite, simfs.OpMkdir, simfs.OpSymlink, simfs.OpRemove, simfs.OpRename:
 			p.Fault.Nth = 1 + p.Fault.Nth%3 // a step issues few of these
